@@ -36,7 +36,9 @@ Proof.
   assert (Ecomp : fst (levels_ cx_st) = Ok al) by (by rewrite Hal).
   assert (HL7 : 0 < L 7%positive).
   { destruct HC as [HC1 _].
-    assert (7%positive ∈ dom (succ cx_st)) as Hd by (apply elem_of_dom; by vm_compute).
+    assert (succ cx_st !! 7%positive = Some (Triple 0 4 6)) as E7 by (by vm_compute).
+    assert (7%positive ∈ dom (succ cx_st)) as Hd
+      by (apply (proj2 (elem_of_dom (succ cx_st) 7%positive)); by rewrite E7).
     specialize (HC1 _ Hd).
     assert (refc cx_st !! 7%positive = Some 1) as E1 by (by vm_compute).
     assert (indeg (succ cx_st) 7%positive = 0) as E2 by (by vm_compute).
@@ -44,7 +46,8 @@ Proof.
   assert (Hreach : reach (succ cx_st) (fun k => 0 < L k) 6%positive).
   { change 6%positive with (absn (t_hi (Triple 0 4 6))).
     apply (reach_hi _ _ 7%positive); [|by vm_compute|done].
-    apply reach_root; [done|]. apply elem_of_dom. exists (Triple 0 4 6). by vm_compute. }
+    apply reach_root; [done|].
+    apply (proj2 (elem_of_dom (succ cx_st) 7%positive)). exists (Triple 0 4 6). by vm_compute. }
   assert (Hout : (∃ res, r = Ok res) ∧ succ s' !! 6%positive = None).
   { assert (r = fst (swap 0 (0 + 1) (Some al) cx_st)) as -> by (by rewrite Hsw).
     assert (s' = snd (swap 0 (0 + 1) (Some al) cx_st)) as -> by (by rewrite Hsw).
